@@ -165,6 +165,10 @@ pub fn stmts(tier: Tier) -> Vec<String> {
         // copies
         "x = .a", "y = x", ".b = x", ".b = .a", "x = .a[1]", "x = .a[0]", "x = .a.b", ".b = .a[1]", ".b = .a[-1]", ".b = .a[2]", "x = %m", "x = .",
         "x = x.b", "x = x[0]", "x = x[1]", "x = y[1]", "x = y.a",
+        // the same path under the event and the metadata prefix
+        "x = %a", ".b = %a", "%a = 1", ".m = %m", "x = [.m, %m]", "%b = .b",
+        // conditional re-assignment starting from a closed empty container
+        "x = {}", "x = []", "if .c == true { x = {\"a\": \"s\"} }", "if .c == true { x = [\"s\"] }", "y = upcase(x.a)", "y = x.a", "y = upcase(x[0])",
         // root / merge
         ". = {\"a\": [1, \"s\", true]}", ". = {}", ". |= {\"b\": 2}", "x |= {\"c\": 1}", ". |= {\"a\": {\"k\": 1}}", ". = x", ".a |= {\"q\": 1}",
         // short-circuit with side effects
@@ -236,7 +240,7 @@ pub fn core_stmts() -> Vec<String> {
         "x = (.a == 1 && { y = \"s\"; true })", "x, err = to_int(.a)", "if .c == true { x = 1 } else { x = \"s\" }", "if .c == true { .a = 1 }",
         "if .c == true { del(.a[0]) }", "if .c == true { x.b = \"n\" }", "y = { x = \"blk\"; 3 }", "del(.a)", "del(.a[0])", "del(.a[-1])", "del(x.b)", "del(x[0])",
         "x = del(.a[0])", "for_each([1]) -> |_i, _v| { x = 0 }", "for_each(x) -> |_i, v| { y = v }", "x = map_values(x) -> |v| { y = v; 1 }", "y = 10 / x",
-        "y = 10 / x.b", "y = x || .s", "y = { x = 0; 10 } / x", "x, err = .a * 2", "if .c == true { return x }", "x = push(x, .a)", "x = merge(x, {\"z\": 1})", ". = {\"a\": [1, \"s\", true]}",
+        "y = 10 / x.b", "y = x || .s", "y = { x = 0; 10 } / x", "x, err = .a * 2", "x = {}", "if .c == true { x = {\"a\": \"s\"} }", "y = upcase(x.a)", "if .c == true { return x }", "x = push(x, .a)", "x = merge(x, {\"z\": 1})", ". = {\"a\": [1, \"s\", true]}",
     ]
     .iter()
     .map(|s| (*s).to_string())
@@ -660,6 +664,9 @@ pub fn step(cfgs: &[Cfg], st: &St, stmt: &str, acc: &mut Acc) -> Option<St> {
                             && wview.metadata == view.metadata;
                         if !same {
                             acc.bump("whole_vs_stepwise_runtime_mismatch");
+                            if std::env::var("VRLMC_PM_DEBUG").is_ok() {
+                                eprintln!("MISMATCH {} | step: {} {} | whole: {} {}", w(), view.outcome.show(), vv::show(&view.event), wview.outcome.show(), vv::show(&wview.event));
+                            }
                         }
                         if type_key(&wp.final_type_info().state) != type_key(&ti.state) {
                             acc.bump("whole_vs_stepwise_type_mismatch");
